@@ -17,6 +17,8 @@ import blackbird  # noqa: E402
 from blackbird.listener import RegRefTransform  # noqa: E402
 
 POINTS = [0.7133, 1.2917, 0.4361, 1.8123, 0.9377]
+import types
+FUNCS = (types.FunctionType, types.BuiltinFunctionType, types.MethodType, types.ModuleType)      # code is not program state
 
 
 def point(names, k):
@@ -166,7 +168,7 @@ def main():
             def mutable_ids(x, acc, depth=0):
                 if depth > 12:
                     return
-                if isinstance(x, (list, dict, set, np.ndarray)) or hasattr(x, "__dict__") and not isinstance(x, (sym.Basic, type)):
+                if isinstance(x, (list, dict, set, np.ndarray)) or hasattr(x, "__dict__") and not isinstance(x, (sym.Basic, type, FUNCS)):
                     if id(x) in acc:
                         return
                     acc.add(id(x))
@@ -179,7 +181,7 @@ def main():
                 elif isinstance(x, np.ndarray) and x.dtype == object:
                     for v in x.reshape(-1):
                         mutable_ids(v, acc, depth + 1)
-                elif hasattr(x, "__dict__") and not isinstance(x, (sym.Basic, type)):
+                elif hasattr(x, "__dict__") and not isinstance(x, (sym.Basic, type, FUNCS)):
                     for v in vars(x).values():
                         mutable_ids(v, acc, depth + 1)
             sets = []
